@@ -490,7 +490,16 @@ struct Observed {
 /// Open the mutated image and read everything; classify and judge.
 #[allow(clippy::too_many_arguments)]
 fn judge_image(out: &mut CaseOut, base: &Base, image: &Image, damaged: &PathBuf, file_class: PathClass, structure: &str, ctx: &Value, rng: &mut Rng) -> Observed {
-    let cfg = Config { reuse: rng.chance(0.5), ..base.cfg };
+    let mut cfg = Config { reuse: rng.chance(0.5), ..base.cfg };
+    // a quarter of the damaged tables are read - and later compacted - by an instance whose file
+    // size limit is one byte or a few hundred: every entry (or every few) closes its output file,
+    // so a read error met while stepping an input arrives while *no* output is open, a state the
+    // larger limit of the writing instance reaches only behind a run of dropped entries
+    if file_class == PathClass::Table && rng.chance(0.25) {
+        cfg.file = *rng.pick(&[1u64, 1, 300]);
+        // (the size of an output counts flushed blocks only: with one-byte blocks every entry is flushed at once)
+        cfg.block = 1;
+    }
     let fs = SimFs::from_image(image);
     let mut sess = Session::new(fs, cfg);
     sess.fill_cache = false;
